@@ -124,7 +124,7 @@ func (s *c09sState) endCase() {
 			}
 			select {
 			case <-t.done:
-			case <-time.After(2 * time.Second):
+			case <-time.After(HxScale(4 * time.Second)):
 			}
 			t.fin = true
 		}
